@@ -28,7 +28,11 @@ func (u *UseCase) UpdateTx(ctx context.Context, oldTxId, newTxId string, filter 
 		u.txStore.Put(newTxId, newTx)
 	}
 
-	newTx.RLock()
+	// The write lock is held from the conflict check to the publication,
+	// so that no other commit can publish to newTx in between.
+	newTx.Lock()
+	defer newTx.Unlock()
+
 	var (
 		files     = make([]model.File, 0, tx.Len())
 		freeNodes = make([]*core.Node[model.File], 0, tx.Len())
@@ -63,7 +67,6 @@ func (u *UseCase) UpdateTx(ctx context.Context, oldTxId, newTxId string, filter 
 			freeNodes = append(freeNodes, n)
 		}
 	}
-	newTx.RUnlock()
 	if err != nil {
 		return
 	}
@@ -72,12 +75,8 @@ func (u *UseCase) UpdateTx(ctx context.Context, oldTxId, newTxId string, filter 
 		return
 	}
 
-	newTx.Lock()
 	u.allStore.Lock()
-	defer func() {
-		u.allStore.Unlock()
-		newTx.Unlock()
-	}()
+	defer u.allStore.Unlock()
 
 	err = u.fileRepo.RunTransaction(ctx, func(ctx context.Context) error {
 		for i := range files {
